@@ -328,13 +328,34 @@ def power_point(ctx, cname):
         dim = 2 if cname in ('SO2', 'SE2') else 3
         for M, (pn, p) in itertools.product(range(1, 6), (('g', (0.5, -1.5, 2.0)), ('e', (1.0, 0, 0)), ('big', (1e3, -2e3, 5e2)))):
             p = np.array(p[:dim])
-            for form in ('1d', 'list'):
+            # M poses x a d x n array of points with n != M (both > 1): two different lengths, must raise ValueError; n == M is the
+            # documented "one point per pose" form for the pose classes (column i = pose i applied to column i) when it is supported
+            if pn == 'g' and M > 1 and cname != 'UnitQuaternion':
+                for n_ in range(2, 6):
+                    cidn = 'C09/%s/points/M=%d/n=%d' % (cname, M, n_)
+                    if not ctx.want(cidn):
+                        continue
+                    ctx.case(cidn, key=cidn)
+                    A_ = np.stack([p * (j + 1) for j in range(n_)], axis=1)
+                    okn, rn = call(lambda: build(cname, [3 + j for j in range(M)]) * A_.copy())
+                    Pn = dict(cls=cname, op='points', m=M, n=n_)
+                    if n_ != M:
+                        if okn:
+                            ctx.fail(cidn, cname + '.mul', 'no-raise', Pn, '%d poses x %d points returned %s instead of raising ValueError' % (M, n_, descr(rn)))
+                        elif not isinstance(rn, ValueError):
+                            ctx.note('mismatched_points_exception', '%s: %s' % (cname, type(rn).__name__))
+                    elif okn:
+                        if not (isinstance(rn, np.ndarray) and rn.shape == (dim, M)) or not all(same(rn[:, i], build(cname, [3 + i]) * A_[:, i].copy()) for i in range(M)):
+                            ctx.fail(cidn, cname + '.mul', 'mismatch', Pn, '%d poses x %d points: column i is not pose i applied to point i (%s)' % (M, M, descr(rn)))
+            for form in ('1d', 'list', 'col', 'row'):
                 cid = 'C09/%s/point/M=%d/p=%s/%s' % (cname, M, pn, form)
                 if not (ctx.want(cid) or ctx.want(cid + '/mixed')):
                     continue
                 ctx.case(cid, key=cid, trivial=(M == 1))
                 ks = [3 + j for j in range(M)]
-                arg = (lambda: p.copy()) if form == '1d' else (lambda: p.tolist())
+                arg = {'1d': lambda: p.copy(), 'list': lambda: p.tolist(), 'col': lambda: p.reshape(-1, 1).copy(), 'row': lambda: p.reshape(1, -1).copy()}[form]
+                if form in ('col', 'row') and not call(lambda: build(cname, [3]) * arg())[0]:
+                    continue        # the single pose does not take this form either (C15 / C06)
                 if ctx.want(cid + '/mixed') and M > 1:
                     # poses of mixed kinds: the identity / a pure translation first, the others later (and the reverse)
                     for tag, ksm in (('I-first', ['I'] + ks[1:]), ('P-first', ['P'] + ks[1:]), ('I-last', ks[:-1] + ['I']), ('P-mid', ks[:1] + ['P'] + ks[2:])):
